@@ -52,13 +52,32 @@ Qed.
    ErrClientClosed; the collector is silent; nothing changes *)
 Theorem closed_start_refused c id raw h : c_closed c = true ->
   c_start c id raw h = (c, [ORet CClientClosed]).
-Proof. intros H. unfold c_start. rewrite H. reflexivity. Qed.
+Proof. intros H. unfold c_start, c_start_gen. rewrite H. reflexivity. Qed.
 
 Theorem closed_close_refused fc fb c : c_closed c = true -> c_close fc fb c = (c, [ORet CClientClosed]).
 Proof. intros H. unfold c_close. rewrite H. reflexivity. Qed.
 
 Theorem closed_tick_silent fc fb c now : c_closed c = true -> snd (c_tick fc fb c now) = [].
 Proof. intros H. unfold c_tick. cbn [c_closed]. rewrite H. reflexivity. Qed.
+
+(* what Close does after setting the flag *)
+Lemma close_core_spec fc fb c1 : c_closed c1 = true ->
+  c_closed (fst (c_close_core fc fb c1)) = true /\
+  c_connClosed (fst (c_close_core fc fb c1)) = c_connClosed c1 + (if c_closeConn c1 then 1 else 0) /\
+  c_closeConn (fst (c_close_core fc fb c1)) = c_closeConn c1 /\
+  (exists o0, snd (c_close_core fc fb c1) = o0 ++ (if c_closeConn c1 then [OConnClose] else [])).
+Proof.
+  intros H. unfold c_close_core.
+  destruct (a_step (c_A c1) AClose) as [A' [r evs]].
+  pose proof (feed_frame fc fb evs (kind_evk []) (upd_A c1 (c_A c1))) as Hf.
+  destruct (feed fc fb (upd_A c1 (c_A c1)) evs (kind_evk [])) as [c2 o]. cbn [fst] in Hf.
+  unfold frame in Hf. cbn [c_closed c_rto c_maxA c_closeConn c_fb c_now c_connClosed c_next_inst upd_A] in Hf.
+  injection Hf as F1 F2 F3 F4 F5 F6 F7 F8.
+  cbn [c_closeConn upd_A]. rewrite F4.
+  destruct (c_closeConn c1); cbn [fst snd c_closed c_connClosed c_closeConn upd_A].
+  - repeat split; [rewrite F7; lia | eexists; reflexivity].
+  - repeat split; [rewrite F1; exact H | rewrite F7; lia | exact F4 | exists o; rewrite app_nil_r; reflexivity].
+Qed.
 
 (* Close succeeds once: nil, closed, and the connection is closed exactly once iff the client owns it *)
 Theorem close_once fc fb c : c_closed c = false ->
@@ -67,16 +86,11 @@ Theorem close_once fc fb c : c_closed c = false ->
   (exists o0, snd (c_close fc fb c) = o0 ++ (if c_closeConn c then [OConnClose; ORet CNil] else [ORet CNil])).
 Proof.
   intros H. unfold c_close. rewrite H.
-  destruct (a_step _ AClose) as [A' [r evs]].
-  set (c1 := mkClient true _ _ _ _ _ _ _ _ _ _).
-  pose proof (feed_frame fc fb evs (kind_evk []) (upd_A c1 (c_A c1))) as Hf.
-  destruct (feed fc fb (upd_A c1 (c_A c1)) evs (kind_evk [])) as [c2 o]. cbn [fst] in Hf.
-  unfold frame in Hf. cbn [c_closed c_rto c_maxA c_closeConn c_fb c_now c_connClosed c_next_inst upd_A c1] in Hf.
-  injection Hf as F1 F2 F3 F4 F5 F6 F7 F8.
-  cbn [c_closeConn upd_A]. rewrite F4.
-  destruct (c_closeConn c); cbn [fst snd c_closed c_connClosed upd_A].
-  - repeat split; [rewrite F7; lia | eexists; reflexivity].
-  - repeat split; [exact F1 | rewrite F7; lia | eexists; reflexivity].
+  destruct (close_core_spec fc fb (set_closed c) eq_refl) as (S1 & S2 & S3 & [o0 S4]).
+  destruct (c_close_core fc fb (set_closed c)) as [c' o]. cbn [fst snd] in *.
+  cbn [set_closed c_connClosed c_closeConn] in S2, S4.
+  repeat split; [exact S1 | exact S2 |].
+  exists o0. rewrite S4, <- app_assoc. destruct (c_closeConn c); reflexivity.
 Qed.
 
 (* ---------------------------------------------------------------- C12 *)
